@@ -50,6 +50,10 @@ func checkC13(c *Ctx, n int) {
 	p.Defaults = 0.1
 	for i := 0; i < n; i++ {
 		g := &gen{r: c.Rng, p: p}
+		if i%2 == 1 {
+			// sections that are dotted command paths; options that already hold something
+			g.p.MaxCmdDepth, g.p.SubOpt, g.p.InitVals = 2, 1, 0.4
+		}
 		cs := g.genCase()
 		collided := false
 		if g.chance(0.4) {
@@ -64,15 +68,18 @@ func checkC13(c *Ctx, n int) {
 		}
 		// candidate sections of the parser's own groups
 		type sec struct {
-			name string
-			opts []*flags.Option
+			name  string
+			opts  []*flags.Option
+			path  []string        // command words that select the section's command on the command line
+			scope []*flags.Option // every option in scope there (for the uniqueness of the long name)
+			cmd   *flags.Command
 		}
 		var secs []sec
 		var all []*flags.Option
 		for _, grp := range allGroups(real.p.Command) {
 			all = append(all, grp.Options()...)
 		}
-		secs = append(secs, sec{"", all})
+		secs = append(secs, sec{name: "", opts: all, scope: all, cmd: real.p.Command})
 		var subtree func(g *flags.Group) []*flags.Option
 		subtree = func(g *flags.Group) []*flags.Option {
 			out := append([]*flags.Option{}, g.Options()...)
@@ -83,10 +90,47 @@ func checkC13(c *Ctx, n int) {
 		}
 		for _, grp := range allGroups(real.p.Command)[1:] {
 			if grp.ShortDescription != "" {
-				secs = append(secs, sec{grp.ShortDescription, subtree(grp)})
+				secs = append(secs, sec{name: grp.ShortDescription, opts: subtree(grp), scope: all, cmd: real.p.Command})
 			}
 		}
+		// sections of commands: the dotted path of command names
+		var walkCmds func(cmd *flags.Command, path []string, scope []*flags.Option)
+		walkCmds = func(cmd *flags.Command, path []string, scope []*flags.Option) {
+			for _, sub := range cmd.Commands() {
+				if strings.ContainsAny(sub.Name, ".%") || strings.HasPrefix(sub.Name, "-") || sub.Name == "" {
+					continue
+				}
+				// the word must select this very command on the command line too (a sibling may carry
+				// the name as an alias, which then wins there)
+				matches := 0
+				for _, x := range cmd.Commands() {
+					if x.Name == sub.Name {
+						matches++
+					}
+					for _, a := range x.Aliases {
+						if a == sub.Name {
+							matches++
+						}
+					}
+				}
+				if matches != 1 {
+					continue
+				}
+				p2 := append(append([]string{}, path...), sub.Name)
+				own := subtree(sub.Group)
+				sc2 := append(append([]*flags.Option{}, scope...), own...)
+				secs = append(secs, sec{name: strings.Join(p2, "."), opts: own, path: p2, scope: sc2, cmd: sub})
+				walkCmds(sub, p2, sc2)
+			}
+		}
+		walkCmds(real.p.Command, nil, all)
 		s := secs[c.Rng.Intn(len(secs))]
+		if len(s.path) == 0 && len(secs) > 0 && i%2 == 1 {
+			// prefer a command section in the runs that declare commands
+			for try := 0; try < 4 && len(s.path) == 0; try++ {
+				s = secs[c.Rng.Intn(len(secs))]
+			}
+		}
 		if collided && c.Rng.Intn(3) != 0 {
 			s = secs[0]
 		}
@@ -111,17 +155,20 @@ func checkC13(c *Ctx, n int) {
 			continue
 		}
 		// the long name must reach this very option on the command line
-		if real.p.FindOptionByLongName(long) != target {
+		if s.cmd.FindOptionByLongName(long) != target {
 			continue
 		}
 		dup := 0
-		for _, o := range all {
+		for _, o := range s.scope {
 			if o.LongNameWithNamespace() == long {
 				dup++
 			}
 		}
 		if dup != 1 {
 			continue
+		}
+		if len(s.path) > 0 {
+			c.Class("c13/section-is-a-command-path")
 		}
 		// the name used in the file, and the option it is documented to select
 		var names []string
@@ -172,12 +219,16 @@ func checkC13(c *Ctx, n int) {
 			}
 			vals = append(vals, v)
 		}
-		secName := caseMix(g, s.name)
+		// group descriptions match case-insensitively; a command path is spelled exactly
+		secName := s.name
+		if len(s.path) == 0 {
+			secName = caseMix(g, s.name)
+		}
 		var ini strings.Builder
 		if secName != "" {
 			ini.WriteString("[" + secName + "]\n")
 		}
-		var argv []string
+		argv := append([]string{}, s.path...)
 		for _, v := range vals {
 			ini.WriteString(name + " = " + v + "\n")
 			if isBoolCode(code) && v == "" {
